@@ -150,7 +150,7 @@ def main():
     # repeated identifiers of the same kind (may be equal): plain core and the full shape
     dup = [(0, 0), (1, 1)] if quick else [(0, 0), (1, 1), (2, 2), (0, 0, 0), (1, 0, 1)]
     sshapes += [(e, lab, po, de, b) for b in dup for (e, lab, po, de) in ((False, None, False, False), (True, 'rc', True, True))]
-    small = 9 if quick else 99
+    small = 9      # non-designated numbers stay one-digit in the designated-number runs (thorough: 99 only in the all-small run)
     P = lambda k: 10 ** k
     if quick:
         cls64 = [(0, 9), (10, 99), (P(9), U32), (U32 + 1, P(10) - 1), (P(10), P(11) - 1), (P(19), 2**64 - 1)]
